@@ -215,6 +215,33 @@ pub fn long_name_inputs() -> Vec<String> {
     v
 }
 
+/// every LIKE pattern of length <= 4 over { %, _, \%, \_, \\, a, b }, plain and negated, against a table of short texts
+/// with and without the special characters: each must come back (the matcher backtracks; escapes after a % are where
+/// it can loop)
+pub fn like_inputs() -> Vec<String> {
+    let syms = ["%", "_", "\\%", "\\_", "\\\\", "a", "b"];
+    let mut pats: Vec<String> = vec![String::new()];
+    let mut layer: Vec<String> = vec![String::new()];
+    for _ in 0..4 {
+        let mut next = vec![];
+        for p in &layer {
+            for s in syms {
+                next.push(format!("{p}{s}"));
+            }
+        }
+        pats.extend(next.iter().cloned());
+        layer = next;
+    }
+    let mut v = vec![];
+    for p in pats {
+        v.push(format!("SELECT id FROM lk WHERE name LIKE '{p}'"));
+        if p.len() <= 3 {
+            v.push(format!("SELECT id FROM lk WHERE name NOT LIKE '{p}'"));
+        }
+    }
+    v
+}
+
 pub fn group_size(group: &str, thorough: bool) -> u64 {
     let s = SYMBOLS.len() as u64;
     let t = TOKENS.len() as u64;
@@ -232,6 +259,7 @@ pub fn group_size(group: &str, thorough: bool) -> u64 {
         "nesting" => nesting_inputs().len() as u64,
         "typed-arith" => arith_inputs().len() as u64,
         "long-names" => long_name_inputs().len() as u64,
+        "like-patterns" => like_inputs().len() as u64,
         "typed" => typed_statements().len() as u64 * 3,
         "typed-session" => typed_statements().len() as u64 * 3,
         _ => 0,
@@ -304,6 +332,7 @@ pub fn input_of(group: &str, idx: u64) -> String {
         "nesting" => nesting_inputs().get(idx as usize).cloned().unwrap_or_default(),
         "typed-arith" => arith_inputs().get(idx as usize).cloned().unwrap_or_default(),
         "long-names" => long_name_inputs().get(idx as usize).cloned().unwrap_or_default(),
+        "like-patterns" => like_inputs().get(idx as usize).cloned().unwrap_or_default(),
         _ => String::new(),
     }
 }
@@ -333,6 +362,9 @@ fn schema_setup(db: &mut Db, variant: u64) -> Result<(), String> {
     run("INSERT INTO m VALUES (1, 1, 1, 1, 1, 1.5, 1.5, 'a', TRUE)")?;
     run("INSERT INTO m VALUES (2, -3, -3, 7, 9, -2.25, -2.25, 'b', TRUE)")?;
     run("INSERT INTO m VALUES (3, NULL, NULL, NULL, NULL, NULL, NULL, NULL, NULL)")?;
+    // texts for the LIKE sweep
+    run("CREATE TABLE lk (id INT, name TEXT)")?;
+    run("INSERT INTO lk VALUES (0, ''), (1, 'a'), (2, 'ab'), (3, 'a_b'), (4, 'a%b'), (5, 'report_final'), (6, 'a\\b'), (7, 'bbbbab'), (8, NULL)")?;
     // the largest and the smallest value of every numeric type
     run("INSERT INTO m VALUES (4, 2147483647, 9223372036854775807, 4294967295, 18446744073709551615, 300000000000000000000000000000000000000.0, 100000000000000000000000000000000000000000000000000000000000000000000000000000000000000000000000000000000000000000000000000000000000000000000000000000000000000000000000000000000000000000000000000000000000000000000000000000000000000000000000000000000000000000000000000000000000000000000000000000000000.0, 'zz', TRUE)")?;
     run("INSERT INTO m VALUES (5, -2147483647 - 1, -9223372036854775807, 0, 0, -300000000000000000000000000000000000000.0, -0.5, 'a', FALSE)")?;
